@@ -42,7 +42,23 @@ func main() {
 	wireDbg := flag.String("wire", "", "debug: print sample wire-token sequences of <pkg.Type>'s Encode and Decode")
 	wireProto := flag.Int64("proto", -1, "debug: protocol for -wire")
 	rxeq := flag.Bool("rxeq", false, "debug: decide language equality of the two regexps given as arguments")
+	dumpIDs := flag.Bool("dump-ids", false, "print the evaluated packet id table (used once to create reference/packet_ids.json)")
+	dumpWire := flag.Bool("dump-wire", false, "print the evaluated Encode layouts (used once to create reference/packet_wire.json)")
 	flag.Parse()
+	if *dumpWire {
+		if err := dumpWireGolden(); err != nil {
+			fmt.Fprintln(os.Stderr, err)
+			os.Exit(2)
+		}
+		return
+	}
+	if *dumpIDs {
+		if err := dumpGolden(); err != nil {
+			fmt.Fprintln(os.Stderr, err)
+			os.Exit(2)
+		}
+		return
+	}
 	if *rxeq {
 		ok, w, err := RegexEquivalent(flag.Arg(0), flag.Arg(1))
 		fmt.Printf("equivalent=%v witness=%q err=%v\n", ok, w, err)
